@@ -72,7 +72,20 @@ class FwdAttr(CustomSchema[Props]):
         return out
 
 
+class FwdSet(Fwd):
+    """A fourth way: the target is written with Props.set(name, value) - the single-name public
+    setter - both when declared and when re-set to the substituted target."""
+
+    def __call__(self, inner: Any) -> "FwdSet":
+        return self.__class__(self.props.set("inner", inner))
+
+    def __substitute__(self, visitor: Any, *, value: Any = Nil, **kwargs: Any) -> Any:
+        inner = self.props.inner.__accept__(visitor, value=value, **kwargs)
+        return self.__class__(self.props.set("inner", inner))
+
+
 _registered = register_type("mc_fwd", Fwd)
+register_type("mc_fwdset", FwdSet)
 register_type("mc_fwdkw", FwdKw)
 register_type("mc_fwdattr", FwdAttr)
 
@@ -83,6 +96,8 @@ def wrap(inner, flavour=None):
         out = schema.mc_fwdattr
         out.inner = inner
         return out
+    if flavour == "set":
+        return schema.mc_fwdset(inner)
     return schema.mc_fwdkw(inner) if flavour == "kw" else schema.mc_fwd(inner)
 
 
